@@ -2,7 +2,9 @@
 
 1. proofs: Properties/C14.v (readdir, walk = Go's walk for every callback policy, walk_all, glob = Go's glob, helpers).
 2. stream walkglob  (A): avfs on MemFS / RoFS / FailFS / BasePathFS / OrefaFS versus the extracted model of the avfs code.
-3. stream walkglobo (B/O): the same trees materialised in a chroot on tmpfs, filepath.WalkDir / filepath.Glob /
+3. stream walkglobos: avfs over OsFS and RoFS / FailFS / BasePathFS over OsFS in the chroot (directories listed unsorted by
+   the kernel) versus the host's functions and versus the model of vfs.go, whose ReadDir sorts any listing order.
+4. stream walkglobo (B/O): the same trees materialised in a chroot on tmpfs, filepath.WalkDir / filepath.Glob /
    os.ReadDir there (oracle) versus avfs on MemFS (O) and versus the Go reference algorithms over the Linux
    specification model (B); A once more on those cases.
 Every case line carries many queries; a differing line is reduced to its first differing query and the tree-building
@@ -113,11 +115,9 @@ def _report(ctx, stream, mm, what, classify=None):
     return kinds
 
 
-def _oracle_streams(ctx, name):
-    ok, out, failing = build_coq()
-    if not ok:
-        ctx.broken("coq-build", "the Coq development does not build; first failing file: %s" % failing, "\n".join(out.splitlines()[-40:]))
-        return None
+def _oracle_streams(ctx, name, harness_cmd="walkglobo"):
+    # only the model files are needed; another property's broken obligation must not raise an alarm for this one
+    build_coq(target="theories/Extract/Extract.vo")
     ok, out = build_ml()
     if not ok:
         ctx.broken("model-build", "extraction / OCaml build of the model failed", out[-3000:])
@@ -126,7 +126,7 @@ def _oracle_streams(ctx, name):
     if not ok:
         ctx.broken("harness-build", "the Go harness does not build against /repo's working tree", out[-3000:])
         return None
-    rc, out = sh([binp, "walkglobo", "-seed", str(ctx.seed), "-tier", ctx.tier, "-out", ctx.dir, "-name", name], cwd=ctx.dir, env=GOENV, timeout=3000)
+    rc, out = sh([binp, harness_cmd, "-seed", str(ctx.seed), "-tier", ctx.tier, "-out", ctx.dir, "-name", name], cwd=ctx.dir, env=GOENV, timeout=3000)
     if rc != 0:
         ctx.broken("harness-run:" + name, "the oracle harness failed (rc=%d)" % rc, out[-3000:])
         return None
@@ -229,6 +229,38 @@ def check_C14(ctx):
     _report(ctx, sta, A, "avfs on MemFS differs from the model of vfs.go on %d case lines of the oracle stream")
     if not B and not A:
         _report(ctx, sto, O, "WalkDir/Glob/ReadDir of avfs on MemFS differ from filepath.WalkDir/filepath.Glob/os.ReadDir on the identical tree on tmpfs on %d case lines")
+
+
+    if ctx.violations:
+        return
+    # ---- avfs over the REAL file system (OsFS and RoFS / FailFS / BasePathFS over it): directory order of the kernel
+    r = _oracle_streams(ctx, "walkglobos", "walkglobos")
+    if r is None:
+        return
+    cases, obs, ora, mod, ref = r
+    try:
+        stt = json.load(open(os.path.join(ctx.dir, "walkglobos.stats.json")))
+    except Exception:
+        stt = {}
+    ctx.coverage["evaluations"] += stt.get("evaluations", 0)
+    ctx.coverage["distinct_nontrivial"] += stt.get("distinct_nontrivial", 0)
+    if stt.get("rule"):
+        ctx.coverage["rule"] += "; [walkglobos] " + stt["rule"]
+    A = [(i, c, m, o) for i, (c, m, o) in enumerate(zip(cases, mod, obs)) if m != o]
+    B = [(i, c, m, o) for i, (c, m, o) in enumerate(zip(cases, mod, ora)) if m != o]
+    O = [(i, c, m, o) for i, (c, m, o) in enumerate(zip(cases, ora, obs)) if m != o]
+    unsorted = stt.get("distribution", {}).get("dirs-listed-unsorted-by-the-kernel", 0)
+    ctx.coverage["streams"]["walkglobos"] = dict({k: v for k, v in stt.items() if k not in ("samples", "rule")},
+                                                 mismatches_model_vs_avfs=len(A), mismatches_model_vs_host=len(B),
+                                                 mismatches_host_vs_avfs=len(O), dirs_listed_unsorted_by_the_kernel=unsorted)
+    if unsorted == 0:
+        ctx.broken("vacuous:walkglobos", "no directory of the materialised trees was listed unsorted by the kernel: the stream cannot see a missing sort", json.dumps(stt.get("distribution", {}))[:2000])
+    sos = {"name": "walkglobos", "harness": "walkglobos", "driver": "walkglob"}
+    if B and not O:
+        i, c, m, o = B[0]
+        ctx.broken("model-vs-host:walkglobos", "the model of vfs.go over the MemFS model disagrees with filepath.WalkDir/Glob/os.ReadDir in the chroot on %d case lines while avfs over OsFS agrees with the host (machinery defect); first: %r" % (len(B), _first_diff(c, m, o)), json.dumps({"case": c})[:3000])
+    _report(ctx, sos, A if A else [(i, c, m, o) for (i, c, m, o) in O],
+            "ReadDir/WalkDir/Glob of avfs through OsFS / RoFS / FailFS / BasePathFS over the real file system differ from the model of vfs.go and from os.ReadDir / filepath.WalkDir / filepath.Glob in the same chroot on %d case lines")
 
 
 CHECKS["C14"] = check_C14
